@@ -43,7 +43,7 @@ theorem pending_split (b : Bytes) (n : Nat) (rest : List TEv) :
   · simp only [he, Bool.false_eq_true, if_false, pending]
     rw [← List.append_assoc, List.take_append_drop]
 
-theorem loop_full (Sim : IfaceSim I spec Rel) (L : SpecLaws spec) (hwant : ∀ k, 0 < (I.want k).2) (zero : Bool) :
+theorem loop_full (Sim : IfaceSim I spec Rel) {ok : Bytes → Prop} (L : SpecLaws spec ok) (hwant : ∀ k h, Rel k h → decodeW spec h = (h, []) → 0 < (I.want k).2) (zero : Bool) :
     ∀ (fuel : Nat) (s : EP κ) (D : List Item), EExact spec Rel s D →
       EInv spec Rel (EP.loop I zero fuel s).1 (D ++ outItems (EP.loop I zero fuel s).2) ∧
       ((∀ it, (EP.loop I zero fuel s).2 ≠ .item it) → EExact spec Rel (EP.loop I zero fuel s).1 D) ∧
@@ -94,7 +94,7 @@ theorem loop_full (Sim : IfaceSim I spec Rel) (L : SpecLaws spec) (hwant : ∀ k
           have := hw { s with k := (I.want s.k).1, script := rest, nreads := s.nreads + 1, eofReached := true } rfl rfl
           -- an empty read ends the stream; bytes the transport never handed over (`b`, if the requested size was 0) are dropped
           have hb : b = [] := by
-            have hpos := hwant s.k
+            have hpos := hwant s.k h hrel hdec
             cases b with
             | nil => rfl
             | cons x xs =>
@@ -115,14 +115,14 @@ theorem loop_full (Sim : IfaceSim I spec Rel) (L : SpecLaws spec) (hwant : ∀ k
             cases r with
             | some it =>
               simp only [outItems]
-              obtain ⟨h', hrel', hdec'⟩ := Sim.feed_some _ h _ k2 it (Sim.want_rel _ _ hrel) hdec hfeed
+              obtain ⟨h', hrel', hdec'⟩ := Sim.feed_some _ h _ k2 it hrel hdec (List.length_take_le _ _) hfeed
               refine ⟨⟨h', hrel', ?_⟩, (fun hne => absurd rfl (hne it)), (fun hc => by cases hc), hpend, Nat.le_succ _⟩
               show refRun spec [] (s.reads ++ [b.take (I.want s.k).2]) = _
               rw [hsnoc, hdec']
               simp [List.append_assoc]
             | none =>
               simp only
-              obtain ⟨hrel', hdec'⟩ := Sim.feed_none _ h _ k2 (Sim.want_rel _ _ hrel) hdec hfeed
+              obtain ⟨hrel', hdec'⟩ := Sim.feed_none _ h _ k2 hrel hdec (List.length_take_le _ _) hfeed
               have hex' : EExact spec Rel
                   { s with k := k2, nreads := s.nreads + 1, reads := s.reads ++ [b.take (I.want s.k).2],
                            script := if (b.drop (I.want s.k).2).isEmpty then rest else .data (b.drop (I.want s.k).2) :: rest } D := by
@@ -140,7 +140,7 @@ theorem loop_full (Sim : IfaceSim I spec Rel) (L : SpecLaws spec) (hwant : ∀ k
                 · have := this.2.2.2.2; simp only at this; omega
 
 /-- one `recv_packet` call -/
-theorem receive_full (Sim : IfaceSim I spec Rel) (L : SpecLaws spec) (hwant : ∀ k, 0 < (I.want k).2)
+theorem receive_full (Sim : IfaceSim I spec Rel) {ok : Bytes → Prop} (L : SpecLaws spec ok) (hwant : ∀ k h, Rel k h → decodeW spec h = (h, []) → 0 < (I.want k).2)
     (s : EP κ) (zero : Bool) (D : List Item) (hinv : EInv spec Rel s D) :
     EInv spec Rel (EP.receive I s zero).1 (D ++ outItems (EP.receive I s zero).2) ∧
     ((∀ it, (EP.receive I s zero).2 ≠ .item it) → EExact spec Rel (EP.receive I s zero).1 D) ∧
@@ -185,7 +185,7 @@ theorem outItems_items (outs : List ROut) (o : ROut) : items (o :: outs) = outIt
   cases o <;> rfl
 
 /-- **Delivery invariant over any history of calls.** -/
-theorem calls_full (Sim : IfaceSim I spec Rel) (L : SpecLaws spec) (hwant : ∀ k, 0 < (I.want k).2) :
+theorem calls_full (Sim : IfaceSim I spec Rel) {ok : Bytes → Prop} (L : SpecLaws spec ok) (hwant : ∀ k h, Rel k h → decodeW spec h = (h, []) → 0 < (I.want k).2) :
     ∀ (zs : List Bool) (s : EP κ) (D : List Item), EInv spec Rel s D →
       EInv spec Rel (EP.calls I s zs).1 (D ++ items (EP.calls I s zs).2) ∧
       (EP.calls I s zs).1.reads.flatten ++ pending (EP.calls I s zs).1.script = s.reads.flatten ++ pending s.script := by
